@@ -61,7 +61,8 @@ for d in sorted(sum([glob.glob(S + "/C??/[abcdef]") for S in SRCS], [])):
            "C10c": "started replacement must be registered", "C02c": "Started panics during spawn",
            "C17c": "sender that is also a target", "C19c": "Deactivate of an inactive PID", "C19d": "prefix-related kind names",
            "C11d": "native replay of select-with-default (the check found it, the replay could not confirm it)",
-           "C03d": "builtin clear() was unsupported by the executor", "C05c": "re-run: the first run's native replay was broken by a concurrent edit of /verif"}
+           "C03d": "builtin clear() was unsupported by the executor", "C05c": "re-run: the first run's native replay was broken by a concurrent edit of /verif",
+           "C15f": "the production serializer was brought inside the claim while the round ran (whole-method model of ProtoSerializer before); the patch was rebased onto the repaired tree f396a6b, which touches the adjacent lines"}
     meta = {
         "id": sid,
         "property": am.get("property", prop),
